@@ -1,4 +1,5 @@
 import AggkitModel.Properties.C02
+import AggkitModel.Generated.CertFacts
 /-
 C13 — certificate bookkeeping survives crashes and a lost database.
 Property theorems only. The operations quantified over include `crash` (between two loop iterations), a tick whose
@@ -12,11 +13,11 @@ open Aggkit.CertRange
 
 /-- a reachable state: any admissible history from an empty node and an empty Agglayer -/
 def Reachable (size : Params → Nat) (s : Sys) : Prop :=
-  ∃ cfg ops, cfg.omitPrev = false ∧ opsOK size { cfg := cfg } ops = true ∧ s = run size { cfg := cfg } ops
+  ∃ cfg ops, opsOK size { cfg := cfg } ops = true ∧ s = run size { cfg := cfg } ops
 
 theorem reachable_inv (size : Params → Nat) (s : Sys) (h : Reachable size s) : Inv s := by
-  obtain ⟨cfg, ops, hc, ho, e⟩ := h
-  rw [e]; exact run_inv size ops _ (init_inv cfg hc) ho
+  obtain ⟨cfg, ops, ho, e⟩ := h
+  rw [e]; exact run_inv size ops _ (init_inv cfg) ho
 
 /-- **after any history (crashes, lost database, restarts included) the next certificate the node builds has the
     correct height, previous exit root and first block** — the ones the Agglayer's records require -/
@@ -26,7 +27,7 @@ theorem C13_next_certificate_correct (size : Params → Nat) (s : Sys) (h : Reac
     (∀ x, s.agg.getLast? = some x → x.status.isOpen = false) := by
   have hi := reachable_inv size s h
   have hs := hi.syncUp hup
-  obtain ⟨b1, _, _, _, _, _, _, _, b9⟩ := build_spec size s.cfg s.l2 hi.l2wf s.loc s.agg hs (inv_lastOK s hi) c retry tb hb
+  obtain ⟨b1, _, _, _, _, _, _, _, b9⟩ := build_spec size s.cfg s.l2 hi.l2wf s.loc s.agg hs (inv_lastOK s hi) (inv_fallback s hi) c retry tb hb
   refine ⟨b1, ?_⟩
   intro x hx
   unfold SyncUp at hs
@@ -204,5 +205,12 @@ example : (run sizeExact {} (demoOps.take 6)).up = false ∧ (run sizeExact {} (
     (run sizeExact {} (demoOps.take 6)).loc.map (·.id) = [1] ∧
     (restart (run sizeExact {} (demoOps.take 6))).2 = true ∧
     (restart (run sizeExact {} (demoOps.take 6))).1.loc.map (·.id) = [2] := by decide
+
+
+/-- the byte layout of the certificate metadata word that `Model/Certificate.lean` (`metaToHash` / `metaFromHash`) assumes,
+    as the code has it now (regenerated from /repo on every run) -/
+theorem C13_code_facts :
+    Gen.CertFacts.metaDecodeLayout = ["0", "1:9", "9:13", "13:17", "1:9", "9:13", "13:17", "17"] ∧
+    Gen.CertFacts.metaEncodeLayout = ["0", "1:9", "9:13", "13:17", "17"] := by decide
 
 end Aggkit.Aggsender
